@@ -189,12 +189,12 @@ theorem parseUnaryExpr_string_token (fuel : Nat) (s : PState)
   have hcm : (substTok s.params (rawNext false s).1).tok ≠ .COMMENT := by rw [h1]; decide
   have hlp : ¬ (substTok s.params (rawNext false s).1).tok = .LPAREN := by rw [h1]; decide
   rw [parseUnaryExpr]
-  rw [P.run_bind, scanIW_run_sig s hws hcm, pscan_run]
+  rw [P.runBind, scanIW_run_sig s hws hcm, pscan_run]
   simp only []
   rw [P.run_ite, if_neg hlp]
-  rw [P.run_bind, unscan_run]
+  rw [P.runBind, unscan_run_eq]
   simp only []
-  rw [P.run_bind, scanIW_run_redeliver false s hws hcm]
+  rw [P.runBind, scanIW_run_redeliver false s hws hcm]
   simp only [h1]
   rfl
 
@@ -216,17 +216,17 @@ theorem parseUnaryExpr_boundparam_token (fuel : Nat) (s : PState)
   have hcm : (substTok s.params (rawNext false s).1).tok ≠ .COMMENT := by rw [h1]; decide
   have hlp : ¬ (substTok s.params (rawNext false s).1).tok = .LPAREN := by rw [h1]; decide
   rw [parseUnaryExpr]
-  rw [P.run_bind, scanIW_run_sig s hws hcm, pscan_run]
+  rw [P.runBind, scanIW_run_sig s hws hcm, pscan_run]
   simp only []
   rw [P.run_ite, if_neg hlp]
-  rw [P.run_bind, unscan_run]
+  rw [P.runBind, unscan_run_eq]
   simp only []
-  rw [P.run_bind, scanIW_run_redeliver false s hws hcm]
+  rw [P.runBind, scanIW_run_redeliver false s hws hcm]
   simp only [h1]
   unfold boundParamError
   by_cases hk : trimDollar (substTok s.params (rawNext false s).1).lit = []
   · rw [P.run_ite, if_pos hk, if_pos hk]; rfl
-  · rw [P.run_ite, if_neg hk, if_neg hk, P.run_bind, P.run_get]
+  · rw [P.run_ite, if_neg hk, if_neg hk, P.runBind, P.run_get]
     simp only [(rawNext_params false s).1]
     cases lookupParam (trimDollar (substTok s.params (rawNext false s).1).lit) s.params <;> rfl
 
